@@ -5,7 +5,7 @@ sys.path.insert(0, '/verif')
 PID = sys.argv[1]
 WAVE = sys.argv[2] if len(sys.argv) > 2 else ''   # '' = first round (/tmp/wt_PID), '2' = second round (/tmp/wt2_PID, stored as W2-...)
 src = f'/tmp/wt{WAVE}_{PID}/out'
-ALL = ['C02','C03','C04','C05','C06','C07','C08','C09','C10','C11','C12','C13','C14','C15','C16','C17','C18','C19','C20']
+ALL = ['C01','C02','C03','C04','C05','C06','C07','C08','C09','C10','C11','C12','C13','C14','C15','C16','C17','C18','C19','C20']
 def sh(cmd, cwd=None, env=None):
     r = subprocess.run(cmd, cwd=cwd, env=env, capture_output=True, text=True, shell=isinstance(cmd, str))
     return r.returncode, (r.stdout + r.stderr)
